@@ -1561,12 +1561,22 @@ OPS_W = [(5, "+"), (3, "-"), (3, "*"), (2, "/"), (3, "**"), (3, "or"), (4, "and"
          (2, "range"), (2, "ut")]
 
 
-def gen_tree(src, d):
-    """Random expression tree of depth <= d over the full operator set."""
+LOCAL_NAMES = ["lx", "ly", "lz", "lw", "lq", "l1"]     # never bound in the caller's scope: only the enclosing construct binds them
+
+
+def gen_tree(src, d, env=None):
+    """Random expression tree of depth <= d over the full operator set.
+    env = None: every name comes from NAMES (bound by the caller). env = tuple of local names in scope: constructs that open a
+    scope (for / some / every / function / context) often bind a name of LOCAL_NAMES, which the caller's scope does NOT bind, and
+    sub-trees inside that scope often use it; a local name is never used outside the construct that binds it."""
+    if env is not None and env and src.bool(0.35):
+        return ["name", src.choice(list(env))]
     if d <= 1 or src.bool(0.12):
         return gen_leaf(src)
     k = src.weighted(OPS_W)
-    g = lambda: gen_tree(src, d - 1)
+    g = lambda e=env: gen_tree(src, d - 1, e)
+    bind = (lambda: src.choice(LOCAL_NAMES) if src.bool(0.6) else gen_name(src)) if env is not None else (lambda: gen_name(src))
+    ext = (lambda e, n: (tuple(e) + (n,)) if n in LOCAL_NAMES else (tuple(x for x in e if x != n))) if env is not None else (lambda e, n: None)
     if k in BINOPS:
         return [k, g(), g()]
     if k == "inlist":
@@ -1592,26 +1602,42 @@ def gen_tree(src, d):
         return ["if", g(), g(), g()]
     if k == "for":
         ctxs = []
+        e = env
         for _ in range(src.int(1, 2)):
+            n = bind()
             if src.bool(0.3):
-                ctxs.append([gen_name(src), "range", g(), g()])
+                ctxs.append([n, "range", g(e), g(e)])
             else:
-                ctxs.append([gen_name(src), "single", g()])
-        return ["for", ctxs, g()]
+                ctxs.append([n, "single", g(e)])
+            e = ext(e, n)
+        return ["for", ctxs, g(e)]
     if k in ("some", "every"):
-        return [k, [[gen_name(src), g()] for _ in range(src.int(1, 2))], g()]
+        qs = []
+        e = env
+        for _ in range(src.int(1, 2)):
+            n = bind()
+            qs.append([n, g(e)])
+            e = ext(e, n)
+        return [k, qs, g(e)]
     if k == "fn":
-        ps = [[gen_name(src), gen_type(src, 1) if src.bool(0.3) else None] for _ in range(src.int(0, 2))]
-        return ["fn", ps, g(), src.bool(0.15)]
+        ps = [[bind(), gen_type(src, 1) if src.bool(0.3) else None] for _ in range(src.int(0, 2))]
+        e = env
+        for p in ps:
+            e = ext(e, p[0])
+        external = src.bool(0.15)
+        return ["fn", ps, g(env if external else e), external]
     if k == "list":
         return ["list", [g() for _ in range(src.int(0, 3))]]
     if k == "ctx":
         entries = []
-        for _ in range(src.int(0, 2)):
+        e = env
+        for _ in range(src.int(0, 2) if env is None else src.int(0, 3)):
             if src.bool(0.3):
-                entries.append([gen_keystr(src), "str", g()])
+                entries.append([gen_keystr(src), "str", g(e)])
             else:
-                entries.append([gen_name(src), "name", g()])
+                n = bind()
+                entries.append([n, "name", g(e)])      # a key is used by LATER entries only
+                e = ext(e, n)
         return ["ctx", entries]
     if k == "range":
         return ["range", src.choice(["[", "(", "]"]), gen_endpoint(src), gen_endpoint(src), src.choice(["]", ")", "["])]
